@@ -575,6 +575,19 @@ def run_rates(case):
             except Exception as e:
                 ok = False
                 bad('rates/steady-state-exception/beta=%s/%s' % (bfn, type(e).__name__), '%s: %s' % (type(e).__name__, e))
+            if ok and bfn == 'b2':
+                # impingement function left to the library's default: the range clauses of the statement hold for it as well
+                try:
+                    nd0 = nr.computeSteadyStateNucleation(th2, xs, T * np.ones(len(xs)), prec, matrix)
+                    pos0 = np.array(dgs) > 0
+                    for nme in ('beta', 'tau', 'nucleation_rate'):
+                        a0 = np.asarray(getattr(nd0, nme), dtype=float)
+                        if a0.shape != pos0.shape or (okall and not (np.all(np.isfinite(a0[pos0])) and np.all(a0[pos0] >= 0))):
+                            bad('rates/site=%s/steady-state-range/default-beta/%s' % (sg, nme), 'computeSteadyStateNucleation without betaFunc: %s = %r' % (nme, a0))
+                            break
+                    nst += len(dgs)
+                except Exception as e:
+                    bad('rates/steady-state-exception/beta=default/%s' % type(e).__name__, '%s: %s' % (type(e).__name__, e))
             if ok:
                 nst += len(dgs)
                 # the table is dG*Vm/Vm: may differ from dG by one rounding, compare to 1e-12
